@@ -58,6 +58,35 @@ CLAIMED = {
          "and the representation invariant holds again (cursor inside, nothing stored outside the new grid) -- the last item is what makes 'discarded content never reappears on a later grow' "
          "a per-call obligation. All sizes 1..65535 in both dimensions, all pre-states (margins, DECOM, pending wrap).",
     design="5 C16", technique="Verus contract on the verbatim body (2 trusted shims: values_mut column trim, tuple assignment split) using the contracts of delete_lines/save/restore"),
+ 'C09': dict(
+    text="The representation invariant wf (geometry 1..65535, cursor y < lines and x <= columns, margins absent or top < bottom <= lines-1, every dirty index < lines, "
+         "nothing stored outside the visible grid, cursor rendition text is a space, saved columns in range) is a postcondition of Screen::new and both a pre- and a postcondition "
+         "of every mutator under contract (see functions_under_contract), proved for all states and arguments; display() is proved to return exactly `lines` strings. By induction "
+         "over call histories the invariant holds after every history built from those operations. NOT covered: draw() and select_graphic_rendition() (SGR's preservation of wf is an "
+         "assumed contract; the fg/bg-colour clause of the statement depends on SGR and is not decided), define_charset, and the parser glue.",
+    design="5 C09", technique="Verus: representation invariant as requires/ensures of every operation under contract (induction over histories argued, not machine-checked)"),
+ 'C10': dict(
+    text="Deductive proof on the verbatim display() (closure and column loop included) that row y of the result is the left-to-right concatenation of the observable cells' texts, "
+         "skipping the cell after a double-width lead and rendering never-written cells as blanks (recursive spec render_map over the abstract view), that every observable cell and every "
+         "other state component is unchanged, and that wf is kept. Purity with respect to later operations follows because every other contract is stated over the abstract view "
+         "obs(y,x) (inline cell_at(buffer, DECSCNM, y, x)), never over presence/absence of cells: an operation that told materialised from absent cells apart could not satisfy its own "
+         "view-level postcondition (this is how the delete_lines defect surfaced).",
+    design="5 C10", technique="Verus contract on the verbatim body incl. closure requires/ensures; for-with-continue desugared by the Rust reference rule; 3 trusted string shims"),
+ 'C15': dict(
+    text="Deductive proof that Screen::new(c,l) and reset() both end in the state is_init(c,l): empty grid, all rows dirty, cursor home/visible/default rendition, no margins, mode set "
+         "exactly {DECAWM, DECTCEM}, empty title/icon, G0 selected with G0=LAT1 and G1=VT100 tables, tab stops exactly the multiples of 8 in [8, columns), no saved width -- with the "
+         "saved-cursor stack untouched by reset. Equal states then evolve equally under every operation whose contract is a function of the abstract view (all operations under contract).",
+    design="5 C15", technique="Verus contracts on the verbatim reset()/new() against one shared initial-state predicate (lazy_static tables called out; contents checked by Kani)"),
+ 'C17': dict(
+    text="Every mutator under contract carries a dirty-set clause proved for all states: the rows it may change are in the set afterwards (erase/insert/delete: cursor row or the affected "
+         "row range; scroll, DECALN, DECSCNM, DECCOLM, reset: every row; resize: exactly the rows of the new screen), rows are only ever added otherwise, and wf keeps every index < lines. "
+         "NOT covered: draw() (not under contract yet), so the combining-mark-on-previous-row clause of the statement is not decided here.",
+    design="5 C17", technique="Verus: per-operation dirty-set postconditions + wf item `dirty indices < lines`"),
+ 'C18': dict(
+    text="Deductive proof that reset/new leave tab stops at exactly the multiples of 8 in [8, columns); set_tab_stop adds the cursor column; clear_tab_stop removes it for selector 0/absent, "
+         "removes all for 3 and does nothing otherwise; tab() moves to the least stop strictly right of the cursor clamped to the last column, or to the last column if there is none, never "
+         "beyond it, and changes nothing else -- for every stop set, cursor column incl. pending wrap and width.",
+    design="5 C18", technique="Verus contracts on the verbatim bodies (tab(): collect+sort called out to a trusted `sorted elements` shim, reference pattern rewritten)"),
 }
 NA = {}
 checks = []
